@@ -14,7 +14,7 @@ INFO = {
                    'returned dictionary, the face object and the keychain arguments are compared with the decision table of '
                    'the statement.  Honest note: strings are concrete; the solver\'s role is the pruned exhaustive '
                    'exploration of the presence / existence vector.',
-    'bounds': {'quick': {'uri_schemes': '13 hand-written URIs + the grid of 10 scheme stems x 16 suffixes', 'configuration_files': '4 candidate paths, each present or not', 'environment': '3 variables, each '
+    'bounds': {'thorough': {'values': 'wider value menus for file and environment (5 transports, 6 store locations each incl. parent-relative and second absolute ones)'}, 'quick': {'uri_schemes': '13 hand-written URIs + the grid of 10 scheme stems x 16 suffixes', 'configuration_files': '4 candidate paths, each present or not', 'environment': '3 variables, each '
                          'set or not', 'values': 'chosen from small concrete sets (absolute / relative / bare scheme store '
                          'locations; unix tcp tcp4 tcp6 udp udp4 udp6 and unknown schemes, with and without port)'}},
     'outside': ['configuration texts outside the chosen value sets', 'non-Linux platforms'],
@@ -95,8 +95,22 @@ def install(eng, fs, environ, files):
     return log
 
 
+WIDE_FILE_VALUES = {
+    'transport': FILE_VALUES['transport'] + ['udp://h.example:1', 'tcp6://[::1]:9'],
+    'pib': FILE_VALUES['pib'] + ['pib-sqlite3:../up/pib', 'pib-sqlite3:/abs/other/pib'],
+    'tpm': FILE_VALUES['tpm'] + ['tpm-file:../up/tpm', 'tpm-file:/abs/other/tpm'],
+}
+WIDE_ENV_VALUES = {
+    'transport': ENV_VALUES['transport'] + ['unix:///e.sock'],
+    'pib': ENV_VALUES['pib'] + ['pib-sqlite3:envrel/pib', 'pib-sqlite3'],
+    'tpm': ENV_VALUES['tpm'] + ['tpm-file:/env/abs/tpm', 'tpm-file'],
+}
+
+
 def h_conf(eng, case):
     import ndn.client_conf as cc
+    FILE_VALUES, ENV_VALUES = (WIDE_FILE_VALUES, WIDE_ENV_VALUES) if case.get('wide') else \
+        (globals()['FILE_VALUES'], globals()['ENV_VALUES'])
     if case.get('warm'):
         # an earlier read in the same process saw other file contents at the same paths: nothing of it may survive
         wtext = 'transport=tcp://9.9.9.9:9\npib=pib-sqlite3:/warm/pib\ntpm=tpm-file:/warm/tpm\n'
@@ -241,4 +255,6 @@ def cases(tier, seed):
     cs = [('conf', {}, {'weight': 100, 'split_depth': 6}), ('conf', {'warm': True}, {'weight': 30, 'split_depth': 5})]
     for i in range(len(URIS)):
         cs.append(('face', {'i': i}))
+    if tier != 'quick':
+        cs.append(('conf', {'wide': True}, {'weight': 300, 'split_depth': 7}))
     return cs
